@@ -234,10 +234,13 @@ class CachedStore(Entity):
             key: The key to invalidate.
         """
         if key in self._cache:
+            self._write_back_if_dirty(key)
             self._cache_remove(key)
 
     def invalidate_all(self) -> None:
         """Clear the entire cache."""
+        for key in list(self._dirty_keys):  # insertion order: the order the keys became dirty
+            self._write_back_if_dirty(key)
         self._cache.clear()
         self._dirty_keys.clear()
         self._eviction_policy.clear()
@@ -270,6 +273,7 @@ class CachedStore(Entity):
                 evict_key = self._eviction_policy.evict()
                 if evict_key is None:
                     break
+                self._write_back_if_dirty(evict_key)
                 self._cache.pop(evict_key, None)
                 self._dirty_keys.pop(evict_key, None)
                 self._evictions += 1
@@ -279,6 +283,18 @@ class CachedStore(Entity):
             self._eviction_policy.on_access(key)
 
         self._cache[key] = value
+
+    def _write_back_if_dirty(self, key: str) -> None:
+        """Write a dirty entry to the backing store before it leaves the cache.
+
+        Eviction and invalidation are synchronous, so the write-back is
+        applied immediately: an acknowledged write-back write must never be
+        dropped just because its entry is evicted or invalidated.
+        """
+        if key in self._dirty_keys and key in self._cache:
+            self._backing_store.put_sync(key, self._cache[key])
+            self._dirty_keys.pop(key, None)
+            self._writebacks += 1
 
     def _cache_remove(self, key: str) -> None:
         """Remove an entry from cache."""
